@@ -18,6 +18,7 @@ import (
 	"0chain.net/chaincore/transaction"
 	zcommon "0chain.net/core/common"
 	"0chain.net/core/encryption"
+	"0chain.net/smartcontract/dbs/event"
 	"0chain.net/smartcontract/zcnsc"
 	"github.com/0chain/common/core/statecache"
 
@@ -59,6 +60,8 @@ type drv struct {
 	minBurn  uint64
 	minMint  uint64
 	ethSeq   int
+
+	baseEvents []event.Event // events emitted in the base block (add-authorizer ...)
 }
 
 func Run(a common.Args) {
@@ -189,6 +192,11 @@ func (d *drv) buildBase() {
 			d.must(w.Do(d.sc(d.deleg, "add-to-delegate-pool", stakeInput(k), stakeAmt)), "stake "+k.Name)
 		}
 	}
+	// the authorizer keys a1, a2 also act as ordinary clients (C20: a burner that has an authorizers row)
+	for _, k := range d.auths[:2] {
+		d.must(w.Do(world.TxnSpec{From: w.Clients[2], To: k.ID, Type: transaction.TxnTypeSend, Value: 20000}), "fund "+k.Name)
+	}
+	d.baseEvents = append([]event.Event{}, w.Cur.Events...)
 	st := d.snap()
 	if st.AuthCount != 3 || st.MaxFee != maxFee {
 		rec.Fatal("bridge base block: unexpected state %+v", st)
@@ -520,7 +528,7 @@ func (d *drv) mint(s step) {
 		quorum = "forged"
 	}
 	d.emitWith("Mint", rec.M{"client": c.Name, "receiver": rcv.Name, "nonce": clamp(s.N), "amount": clamp(int64(amount)), "sigs": logged,
-		"quorum": quorum, "unstaked_signer": unstaked},
+		"quorum": quorum, "auth_understaked": unstaked},
 		res, pre, post, fmt.Sprintf("%s/%v/%s", s.Amt, c == rcv, quorum), func(st *zcnsc.VerifBridgeState, m rec.M) {
 			var credited uint64
 			for id, a := range st.Auths {
@@ -541,6 +549,7 @@ func (d *drv) mint(s step) {
 				}
 			}
 			m["fee_credit"] = fc
+			m["fee_credited"] = fc != "none" && fc != "partial"
 		})
 }
 
